@@ -218,7 +218,9 @@ func genC19(cw *caseWriter, seed uint64, tier string) {
 	}
 	withYml, noYml, otherYml := jlScratch("yaml"), jlScratch("inline"), jlScratch("other")
 	os.WriteFile(filepath.Join(otherYml, "row.yml"), []byte("columns:\n  - name: \"zzz\"\n    output: \"numeric\"\n  - name: \"a\"\n    output: \"hidden\"\n"), 0o644)
-	stdinValues := []string{`1`, `"12"`, `"x"`, `true`, `null`, `1.5`, `"2021-09-24T21:21:00Z"`, `1632518460`, `"AQ=="`, `{"q":1,"b":2}`, `[1]`, `"2021-09-24"`, `255`}
+	stdinValues := []string{`1`, `"12"`, `"x"`, `true`, `null`, `1.5`, `"2021-09-24T21:21:00Z"`, `1632518460`, `"AQ=="`, `{"q":1,"b":2}`, `[1]`, `"2021-09-24"`, `255`,
+		// arrays that do not hold one kind of thing: an object first and something else later, at any depth
+		`[{"a":1},2]`, `[{"sku":"a"},null]`, `[{"a":1},"x",{"b":2}]`, `[[{"a":1},[1]],{"b":[{"c":1},true]}]`, `{"l":[{"a":1},[2]]}`, `[null,{"a":1}]`, `[]`, `[[],{}]`}
 	for i := 0; i < n; i++ {
 		cols := jlRandCols(r, 0)
 		var in bytes.Buffer
@@ -319,10 +321,43 @@ func genC19(cw *caseWriter, seed uint64, tier string) {
 		cw.count("jlbad:inline")
 		cw.emit("jlbad inline "+t, true, "jlbad", "C19", "inline "+hxs(t), runJl(bad, []string{"-t", t}, stdin))
 	}
+	// …whatever the logging context: the logs switched off (by flag, by name or number, through the environment, in
+	// a config.yaml next to the data) or turned all the way up — the exit status and standard output are not logs
+	for i, t := range []string{`{`, `{"a":"string"`, `[1]`, `{"a":"numeric"} x`, `nope`, `{"a":}`, `"x"`, `{"a":"string"},`} {
+		args := []string{"-t", t}
+		os.Remove(filepath.Join(bad, "config.yaml"))
+		jlExtraEnv = nil
+		what := ""
+		switch i % 8 {
+		case 0:
+			args, what = append(args, "-v", "none"), "-v none"
+		case 1:
+			args, what = append(args, "-v", "0"), "-v 0"
+		case 2:
+			jlExtraEnv, what = []string{"JL_VERBOSITY=none"}, "JL_VERBOSITY=none"
+		case 3:
+			jlExtraEnv, what = []string{"JL_VERBOSITY=0"}, "JL_VERBOSITY=0"
+		case 4:
+			os.WriteFile(filepath.Join(bad, "config.yaml"), []byte("verbosity: \"none\"\n"), 0o644)
+			what = "config verbosity none"
+		case 5:
+			os.WriteFile(filepath.Join(bad, "config.yaml"), []byte("verbosity: \"0\"\n"), 0o644)
+			what = "config verbosity 0"
+		case 6:
+			args, what = append(args, "-v", "trace", "--debug", "--log-json"), "-v trace --debug --log-json"
+		default:
+			args, what = append(args, "--color", "yes", "-v", "1"), "--color yes -v 1"
+		}
+		cw.count("jlbad:inline-logctx")
+		cw.emit("jlbad inline "+t+" under "+what, true, "jlbad", "C19", "inline "+hxs(t), runJl(bad, args, stdin))
+	}
+	os.Remove(filepath.Join(bad, "config.yaml"))
+	jlExtraEnv = nil
 	for _, y := range []string{"columns: [", "columns:\n  - name: [a\n", "columns: 5\n", "\t\tbad", "columns:\n  - name: a\n    columns: 7\n"} {
 		os.WriteFile(filepath.Join(bad, "row.yml"), []byte(y), 0o644)
 		cw.count("jlbad:yaml")
 		cw.emit("jlbad yaml "+y, true, "jlbad", "C19", "yaml "+hxs(y), runJl(bad, nil, stdin))
+		cw.emit("jlbad yaml "+y+" under -v none", true, "jlbad", "C19", "yaml "+hxs(y), runJl(bad, []string{"-v", "none"}, stdin))
 	}
 	os.Remove(filepath.Join(bad, "row.yml"))
 	// `-t {}` and an empty -t keep the file definition
